@@ -172,7 +172,7 @@ func Gen(r *vh.Rng, flavour string) Case {
 		maxDepth = 1 + r.Intn(3)
 	}
 	for i := 0; i < nr; i++ {
-		c.RRs = append(c.RRs, RR{Prog: genProg(r, c.Slots, maxDepth, 0, true), Spawn: r.Chance(60), IntervalUs: []int{0, 100, 200, 2000}[r.Intn(4)]})
+		c.RRs = append(c.RRs, RR{Prog: genProg(r, c.Slots, maxDepth, 0, true), Spawn: r.Chance(60), IntervalUs: []int{0, 100, 200, 2000, 20000}[r.Intn(5)]})
 	}
 	stopPct := 8
 	if flavour == "C04" {
